@@ -1,5 +1,6 @@
 SPECIFICATION TraceSpec
 CONSTANTS
   Nodes = {"a", "b", "c"}
+  SnapCarriesLP = TRUE
 POSTCONDITION Done
 CHECK_DEADLOCK FALSE
